@@ -761,6 +761,9 @@ class Problem:
             self._scaling_factor = np.ones(self.n)
             self._scaling_shift = np.zeros(self.n)
 
+        # Set the number of evaluations of the problem.
+        self._n_eval = 0
+
         # Set the initial filter.
         self._feasibility_tol = feasibility_tol
         self._filter_size = filter_size
@@ -806,6 +809,7 @@ class Problem:
         x_full = self.build_x(x)
         fun_val = self._obj(x_full)
         cub_val, ceq_val = self._nonlinear(x_full)
+        self._n_eval += 1
         maxcv_val = self.maxcv(x, cub_val, ceq_val)
         if self._store_history:
             self._fun_history.append(fun_val)
@@ -956,7 +960,7 @@ class Problem:
         int
             Number of function evaluations.
         """
-        return self._obj.n_eval
+        return self._n_eval
 
     @property
     def fun_name(self):
